@@ -24,6 +24,9 @@ func init() { fw.Register(&c15{}) }
 
 func (*c15) ID() string    { return "C15" }
 func (*c15) Level() string { return "exploration" }
+
+// a case takes milliseconds; an API call that never returns (e.g. a lock left held) is found by the driver's watchdog
+func (*c15) Config(tier string) fw.Config { return fw.Config{CaseTimeout: 20 * time.Second} }
 func (*c15) NumCases(tier string) int {
 	if tier == "thorough" {
 		return 200000
@@ -194,7 +197,7 @@ func (c *c15) convCase(r *fw.Rec, rng *rand.Rand) {
 	r.Eval()
 	// 1. FromInterface
 	obj, err := tengo.FromInterface(g.v)
-	s := tengo.NewScript([]byte("t := type_name(x)\ny := x\n"))
+	s := tengo.NewScript([]byte("t := type_name(x)\ny := x\nz := immutable(x)\nw := {im: immutable({v: x}), ar: immutable([x])}\n"))
 	addErr := s.Add("x", g.v)
 	if g.wantType == "" {
 		r.Inc("a:unsupported")
@@ -270,6 +273,17 @@ func (c *c15) convCase(r *fw.Rec, rng *rand.Rand) {
 		detail["via_variable"] = fmt.Sprintf("%T(%v)", viaVar, viaVar)
 		detail["want_back"] = fmt.Sprintf("%T(%v)", g.back, g.back)
 		r.Violate("conv:back:"+g.wantType, "converting to an object and back is not the identity up to the documented normalisation", detail)
+		return
+	}
+	// 3b. the same value read back from inside immutable containers made by the script
+	viaImm := cp.Get("z").Value()
+	viaNested := cp.Get("w").Value()
+	wantNested := map[string]interface{}{"im": map[string]interface{}{"v": g.back}, "ar": []interface{}{g.back}}
+	if !c15EqualGo(viaImm, g.back) || !c15EqualGo(viaNested, wantNested) {
+		detail["via_immutable"] = fmt.Sprintf("%T(%v)", viaImm, viaImm)
+		detail["via_nested_immutables"] = fmt.Sprintf("%T(%v)", viaNested, viaNested)
+		detail["want_back"] = fmt.Sprintf("%T(%v)", g.back, g.back)
+		r.Violate("conv:back-immutable:"+g.wantType, "a value read back from inside an immutable array/map does not convert to the documented Go type", detail)
 		return
 	}
 	// 4. typed accessors against the coercion table
@@ -389,6 +403,12 @@ var c15Scripts = []string{
 	"b = undefined\nd := is_undefined(b)\n",
 	"s := string(a) + b\nn := len(hist)\n",
 	"rows[0].id = a\nrows[1][0] = cnt\nrows[1] = append(rows[1], a)\nout := rows[0].id\n",
+	// an error value with a mutable payload kept in a global across runs and clones
+	"if !is_error(b) { b = error({n: a, l: [cnt]}) } else { b.value.n = a; b.value.l[0] += 1 }\nout := b\n",
+	"hist = [error([a]), hist]\nif is_error(hist[1][0]) { hist[1][0].value[0] = cnt }\nq := hist\n",
+	// "copy" is a host variable of these histories although it is also the name of a builtin function
+	"out := copy\n",
+	"copy = len(hist)\nq := is_function(copy)\n",
 }
 
 // model value constructors (unique written values)
@@ -426,6 +446,8 @@ func c15DeepCopy(v ref.Value) ref.Value {
 		return ref.NewMap(m, false)
 	case *ref.Bytes:
 		return &ref.Bytes{B: append([]byte{}, x.B...)}
+	case *ref.Err:
+		return &ref.Err{V: c15DeepCopy(x.V)}
 	}
 	return v
 }
@@ -453,6 +475,7 @@ func (c *c15) historyCase(r *fw.Rec, rng *rand.Rand) {
 	add("cnt", int64(0), ref.Int(0))
 	add("hist", []interface{}{int64(0)}, ref.NewArr([]ref.Value{ref.Int(0)}, false))
 	add("m", map[string]interface{}{}, ref.NewMap(nil, false))
+	add("copy", "cp", ref.Str("cp"))
 	add("rows", []interface{}{map[string]interface{}{"id": int64(0)}, []interface{}{int64(1)}},
 		ref.NewArr([]ref.Value{ref.NewMap(map[string]ref.Value{"id": ref.Int(0)}, false), ref.NewArr([]ref.Value{ref.Int(1)}, false)}, false))
 	var live []*c15Compiled
@@ -516,7 +539,7 @@ func (c *c15) historyCase(r *fw.Rec, rng *rand.Rand) {
 			live = append(live, &c15Compiled{cp: cp, src: src, state: st, label: fmt.Sprintf("c%d", len(live))})
 		case 3, 4: // Set
 			t := pick(rng, live)
-			n := pick(rng, []string{"a", "b", "cnt", "nosuch", "out", "x"})
+			n := pick(rng, []string{"a", "b", "cnt", "nosuch", "out", "x", "copy", "len"})
 			gv, mv := c15ModelVal(rng, &uniq)
 			if n == "a" || n == "cnt" {
 				uniq++
@@ -570,7 +593,7 @@ func (c *c15) historyCase(r *fw.Rec, rng *rand.Rand) {
 			}
 		case 7, 8: // Get
 			t := pick(rng, live)
-			n := pick(rng, []string{"a", "b", "cnt", "hist", "m", "out", "x", "c", "late", "nosuch", "z", "q", "d", "s", "n", "rows", "rows"})
+			n := pick(rng, []string{"a", "b", "cnt", "hist", "m", "out", "x", "c", "late", "nosuch", "z", "q", "d", "s", "n", "rows", "rows", "copy", "len"})
 			got := canon(t.cp.Get(n).Object())
 			want := "undef"
 			if v, ok := t.state[n]; ok {
